@@ -149,6 +149,9 @@ impl Scenario for C14 {
             }
             v.push(Act::Pay { token, spender: 0, amt: Amt::One, auth: false });
             v.push(Act::Add { token, spender: 0, amt: Amt::One, auth: false });
+            // the gas service named as its own payer (holder index 3): nobody can sign for it
+            v.push(Act::Pay { token, spender: 3, amt: Amt::One, auth: false });
+            v.push(Act::Add { token, spender: 3, amt: Amt::One, auth: false });
             for amt in AMTS {
                 v.push(Act::Collect { token, amt, by: 3, receiver: 0 });
                 v.push(Act::Refund { token, amt, by: 3, receiver: 0 });
@@ -200,7 +203,7 @@ impl Scenario for C14 {
                 out.kind = if pay { "pay_gas" } else { "add_gas" };
                 let x = amt_of(*amt, m.bal[*token][*spender]);
                 let tok = token_scval(&w.sc_addr(&ctx.tokens[*token]), x);
-                let sp = ctx.who[*spender].clone();
+                let sp = if *spender == 3 { ctx.gas.clone() } else { ctx.who[*spender].clone() };
                 let sender = ctx.who[5].clone();
                 let signers = if *auth { vec![sp.clone()] } else { vec![sender.clone()] };
                 let call = if pay {
@@ -312,7 +315,7 @@ fn main() {
         let thorough = tier == "thorough";
         let mut o = Opts::new(tier, if thorough { 10 } else { 4 });
         o.min_depth = 3;
-        o.rule = "three configurations (owner and collector distinct / the same address at deployment / the service already holding i128::MAX - 5 of two tokens); all sequences over ownership transfer to the stranger, pay_gas / add_gas (2 tokens: stellar asset contract and native interchain token; spenders U1, U2; amounts -1, 0, 1, balance, balance+1; authorised by the spender or by someone else) and collect_fees / refund (amounts -1, 0, 1, held, held+1; by collector, owner, stranger (who may have become the owner); to a receiver, to the collector itself, to the gas service itself, and to an address that a third token refuses); after every new state all balances of both tokens and the equation held == paid + added - collected - refunded are compared with the model".into();
+        o.rule = "three configurations (owner and collector distinct / the same address at deployment / the service already holding i128::MAX - 5 of two tokens); all sequences over ownership transfer to the stranger, pay_gas / add_gas (2 tokens: stellar asset contract and native interchain token; spenders U1, U2; amounts -1, 0, 1, balance, balance+1; authorised by the spender or by someone else; also naming the gas service itself as payer) and collect_fees / refund (amounts -1, 0, 1, held, held+1; by collector, owner, stranger (who may have become the owner); to a receiver, to the collector itself, to the gas service itself, and to an address that a third token refuses); after every new state all balances of both tokens and the equation held == paid + added - collected - refunded are compared with the model".into();
         (C14 { thorough }, o)
     });
 }
